@@ -363,6 +363,7 @@ type Conn struct {
 
 // Dial opens a connection and waits for the greeting. prep may set fault plans on the pipe.
 func (w *Worker) Dial(caps int, prep func(p *srvkit.Pipe)) *Conn {
+	learnIdlingLine()
 	ss := w.Server(caps)
 	w.mu.Lock()
 	w.cur = nil
@@ -377,7 +378,38 @@ func (w *Worker) Dial(caps int, prep func(p *srvkit.Pipe)) *Conn {
 	return c
 }
 
-var idlingLine = []byte("\r\n+ idling\r\n")
+// idlingLine is the server's continuation line for IDLE (with the CRLF that precedes it): the
+// driver counts it in the output to know that an idle goroutine is owed. Its text is the server's
+// choice, so it is learnt once per process from a plain IDLE on a fresh connection.
+var (
+	idlingLine     = []byte("\r\n+ idling\r\n")
+	idlingLineOnce sync.Once
+)
+
+func learnIdlingLine() {
+	idlingLineOnce.Do(func() {
+		ss := srvkit.NewStubServer(imapserver.Options{InsecureAuth: true, Caps: CapSet(CapsRev1)})
+		defer ss.Close()
+		d, _, err := ss.Connect()
+		if err != nil {
+			return
+		}
+		defer d.Close()
+		if _, closed, err := d.Do("cal1 LOGIN u p\r\n"); err != nil || closed {
+			return
+		}
+		resps, closed, err := d.Do("cal2 IDLE\r\n")
+		if err != nil || closed {
+			return
+		}
+		for _, r := range resps {
+			if r.Tag == "+" {
+				idlingLine = append([]byte("\r\n"), r.Raw...)
+			}
+		}
+		d.Do("DONE\r\n")
+	})
+}
 
 // Quiesce waits until the server goroutine is parked in Read with nothing to read and every
 // idle goroutine that the output says was started has finished writing its scripted updates.
